@@ -10,6 +10,7 @@ import (
 	"github.com/form3tech-oss/f1/v2/internal/options"
 	"github.com/form3tech-oss/f1/v2/internal/progress"
 	"github.com/form3tech-oss/f1/v2/internal/run/views"
+	"github.com/form3tech-oss/f1/v2/internal/verifhook"
 )
 
 type Result struct {
@@ -88,6 +89,7 @@ func (r *Result) Error() error {
 func (r *Result) Summary() *views.ViewContext[views.ResultData] {
 	r.mu.RLock()
 	defer r.mu.RUnlock()
+	verifhook.At("result.nested")
 
 	return r.views.Result(views.ResultData{
 		SuccessfulIterationCount:     r.snapshot.SuccessfulIterationDurations.Count,
@@ -107,6 +109,7 @@ func (r *Result) Summary() *views.ViewContext[views.ResultData] {
 func (r *Result) Failed() bool {
 	r.mu.RLock()
 	defer r.mu.RUnlock()
+	verifhook.At("result.nested")
 
 	opts := r.runOptions
 
@@ -142,6 +145,7 @@ func (r *Result) HasDroppedIterations() bool {
 func (r *Result) Setup() *views.ViewContext[views.SetupData] {
 	r.mu.RLock()
 	defer r.mu.RUnlock()
+	verifhook.At("result.nested")
 
 	return r.views.Setup(views.SetupData{
 		Error: r.Error(),
@@ -151,6 +155,7 @@ func (r *Result) Setup() *views.ViewContext[views.SetupData] {
 func (r *Result) Teardown() *views.ViewContext[views.TeardownData] {
 	r.mu.RLock()
 	defer r.mu.RUnlock()
+	verifhook.At("result.nested")
 
 	return r.views.Teardown(views.TeardownData{
 		Error: r.Error(),
